@@ -194,7 +194,11 @@ CHECKS = {
         "(reset_restores, via the invariant that no operation changes t0, tf, the initial step or the first sample); a call made at the "
         "target changes nothing (at_target_noop). The states, integrator memory, events, dense output and counters are compared on the "
         "implementation: random op sequences from the property's alphabet, then reset() and re-run vs a fresh system bit for bit; identical "
-        "sequences bitwise; split runs vs single runs at method accuracy; caller's y0/constants untouched.",
+        "sequences bitwise; split runs vs single runs at method accuracy; caller's y0/constants untouched. Whole-run model DV.Run (time grid + "
+        "recorded states, fixed-step explicit RK and splitting methods): a run split at one of its own grid points (at least one whole step "
+        "before the target) records exactly the times AND states of the single call (split_at_grid_point_changes_no_sample, with a decided "
+        "counterexample showing that the distance hypothesis cannot be dropped); tied to the code by harness/runsim.py (dyadic plans: times "
+        "exactly, states against the exact rational states of the model).",
    note="Trusted: Lean kernel, standard axioms, harness. The bitwise clauses about y are measurements on the implementation; the model "
         "covers the time grid, dt and status.",
    technique="Lean 4 proof (invariant over arbitrary op lists) + differential op-sequence testing against fresh systems + replay",
@@ -221,8 +225,12 @@ CHECKS = {
         "and number of steps the shifted / mirrored run records the shifted / mirrored times with the same / mirrored requests, dt, status), "
         "relative to an integrator whose returns are equivariant; the explicit RK step of an autonomous right-hand side is shown not to depend "
         "on the time at all (rfl on the step model of C02), and the step of the time-reversed problem f'(t,y) = -f(-t,y) by -h is the mirrored "
-        "step for every f, table, state and step (step_reflection: same increment, negated stages and end slope). That the computed STATES of paired runs agree is measured on the implementation "
-        "(rounding level for fixed-step, tolerance level for adaptive methods).",
+        "step for every f, table, state and step (step_reflection: same increment, negated stages and end slope). The computed STATES: on the whole-run model DV.Run (time grid + recorded states) the shifted run of "
+        "an autonomous system and the backward run of the time-reflected problem record exactly the same states, for explicit RK tables and "
+        "drift/kick compositions, every right-hand side, span, step and call history (shifted_run_computes_same_states, "
+        "reflected_run_computes_same_states, rk_increment_ignores_time_when_autonomous, increment_of_reversed_problem); DV.Run is tied to "
+        "the code by harness/runsim.py (whole runs: times exactly, states against exact rationals). For adaptive methods the agreement of "
+        "paired runs is measured (tolerance level).",
    note="Trusted: Lean kernel, standard axioms, harness. Not in the loop model: the states y (the step model of C02 carries them), IEEE "
         "rounding of t + dt (shifted floating-point times differ in their last bits; the theorem is over Q).",
    technique="Lean 4 proof (invariant by induction over fuel) on the C03 loop model + exact request comparison + paired runs",
@@ -235,7 +243,11 @@ CHECKS = {
         "is extended by samples moving strictly monotonically toward the target without passing it, earlier samples (incl. the first) are "
         "untouched, and a call that returns through the loop guard ends within max(eps, tolEps) of the target; a whole final step lands "
         "exactly (theorems loop_grid, integrate_grid, call_sequence_covers_spans). Tied to the code by bit-exact float64 replay of recorded "
-        "operation sequences (times, dt, status, capacity, every requested step).",
+        "operation sequences (times, dt, status, capacity, every requested step). States: the whole-run model DV.Run puts the recorded states "
+        "back for fixed-step explicit RK and splitting methods; fixed_step_samples_paired proves for every right-hand side and any sequence of "
+        "calls that times and states stay paired, the first sample is (t0, y0) and every state is its predecessor advanced by one step of the "
+        "method over the recorded interval; harness/runsim.py compares whole runs of the real OdeSystem with it (times exactly, states "
+        "against exact rationals) and evaluates the per-step relation independently of the model.",
    note="Trusted: Lean kernel, standard axioms, harness. Modelled, not verified: IEEE rounding (theorems over Q; replay is bit-exact on "
         "generated inputs), the states y (pairing/finite/dtype are checked on the implementation only), event handling (C07-C09). The "
         "integrator contract is an explicit hypothesis, checked on every recorded return.",
